@@ -233,6 +233,16 @@ def real_bank_oracle(ctx):
         which = r.choice(["stft", "stft", "si"])
         flags = dict(include_energy=r.random() < 0.5, use_log=r.random() < 0.5, use_power=r.random() < 0.5,
                      pad_to_nearest_power_of_two=r.random() < 0.5)
+        # fixed extra shapes (every run): other spellings of the frame style - whatever computer the constructor
+        # accepts is "any computer" of the property (the unchanged code rejects them: counted, nothing to check) -,
+        # and log features of a signal that is exactly zero except for two bursts (the SI computer's DFT blocks
+        # depend on the chunking, so only the log floor keeps round-off out of the silent frames)
+        special = {2: "style:Causal", 8: "style:Centered", 14: "style:CENTERED", 5: "bursts:si", 11: "bursts:stft", 17: "bursts:si", 20: "bursts:si", 23: "bursts:si"}.get(case_no)
+        if special and special.startswith("style:"):
+            style = special[6:]
+        if special and special.startswith("bursts:"):
+            which = special[7:]
+            flags["use_log"] = True
         shift_ms = r.choice([2.0, 5.0, 10.0])
         case = dict(computer=which, bank=kind, scale=scale, num_filts=nf, low=lo, high=hi, style=style, shift_ms=shift_ms, **flags)
         try:
@@ -248,7 +258,7 @@ def real_bank_oracle(ctx):
             else:
                 comp = compute.SIFrameComputer(b, frame_shift_ms=shift_ms, frame_style=style, **flags)
                 # property precondition: shift shorter than the longest filter's one-sided support
-                sup = max((rr if style == "causal" else (rr - ll) // 2) for ll, rr in b.supports)
+                sup = max((rr if style.lower() == "causal" else (rr - ll) // 2) for ll, rr in b.supports)
                 if not comp.frame_shift < sup:
                     ctx.count("out_of_scope")
                     continue
@@ -262,7 +272,18 @@ def real_bank_oracle(ctx):
         fdt = r.choice([np.float64, np.float64, np.float32])
         x = np.random.RandomState(r.randrange(1 << 30)).randn(N).astype(fdt)
         x.setflags(write=False)
+        if special and special.startswith("bursts:"):
+            N = max(N, 6 * L + 11)
+            xb = np.zeros(N)
+            rs = np.random.RandomState(r.randrange(1 << 30))
+            for a0 in (N // 7, (4 * N) // 7):
+                xb[a0 : a0 + L // 2 + 3] = rs.randn(len(xb[a0 : a0 + L // 2 + 3]))
+            x = xb.astype(fdt)
+            x.setflags(write=False)
+            case["signal"] = "two bursts in silence"
         chunks = random_chunking(r, N)
+        if special and special.startswith("bursts:"):
+            chunks = [64] * (N // 64) + ([N % 64] if N % 64 else [])
         if case_no % 6 == 1:
             # fixed shape of the reused-block feed: double precision, blocks a little longer than a frame
             fdt, N = np.float64, 5 * L + 7
